@@ -53,6 +53,10 @@ pub enum Malform {
     Trailing(u8),
     /// character data before the root element
     LeadingText,
+    /// a byte sequence that is not UTF-8 inside a comment before the root (0) or after it (1), or
+    /// inside the XML declaration's encoding name position of a comment-free hello (2): NETCONF
+    /// messages are UTF-8 (RFC 6241 section 3), so this is not a well-formed message
+    NotUtf8InComment(u8),
 }
 
 #[derive(Debug, Clone, Serialize, Deserialize)]
@@ -202,7 +206,9 @@ fn expected(
     let ill_formed = parse_document(hello.strip_suffix(MARKER).unwrap_or(hello)).is_err();
     match case.malform {
         Malform::None => {}
-        Malform::WrongRootName | Malform::WrongNamespace => return Err("hello malformed"),
+        Malform::WrongRootName | Malform::WrongNamespace | Malform::NotUtf8InComment(_) => {
+            return Err("hello malformed")
+        }
         // syntactic damage: only counts if the document really is ill-formed now
         _ if ill_formed => return Err("hello malformed"),
         _ => {}
@@ -307,6 +313,7 @@ impl Prop for HelloMatrix {
                 1 => Just(Malform::UnclosedTag),
                 2 => (0u8..5).prop_map(Malform::Trailing),
                 1 => Just(Malform::LeadingText),
+                1 => (0u8..3).prop_map(Malform::NotUtf8InComment),
             ],
             any::<bool>(),
         )
@@ -349,10 +356,31 @@ impl Prop for HelloMatrix {
     fn check(&self, case: &Case) -> Obs {
         let mut obs = Obs::default();
         let (hello, uris) = hello_doc(case);
+        // the bytes on the wire (differ from the text only for the not-UTF-8 malformation)
+        let hello_bytes: Vec<u8> = match case.malform {
+            Malform::NotUtf8InComment(k) => {
+                let text = hello.strip_suffix(MARKER).unwrap_or(&hello);
+                let comment: &[u8] = match k % 3 {
+                    0 | 1 => b"<!-- router-\xE9 -->",
+                    _ => b"<!-- \x80 -->",
+                };
+                let mut v = Vec::new();
+                if k % 3 == 1 {
+                    v.extend_from_slice(text.as_bytes());
+                    v.extend_from_slice(comment);
+                } else {
+                    v.extend_from_slice(comment);
+                    v.extend_from_slice(text.as_bytes());
+                }
+                v.extend_from_slice(MARKER.as_bytes());
+                v
+            }
+            _ => hello.clone().into_bytes(),
+        };
         let wire = Wire::new();
         if case.server_waits_for_client {
             wire.set_send_gate(true);
-            let h = hello.clone().into_bytes();
+            let h = hello_bytes.clone();
             let mut first = true;
             wire.state.lock().unwrap().handler = Some(Box::new(move |_req| {
                 let mut r = HandlerResult::default();
@@ -363,7 +391,7 @@ impl Prop for HelloMatrix {
                 r
             }));
         } else {
-            wire.push(hello.clone().into_bytes());
+            wire.push(hello_bytes.clone());
         }
         let mut fut = Box::pin(Session::verif_new(wire.transport()));
         let mut res = drive_pinned(fut.as_mut());
